@@ -18,6 +18,7 @@ import (
 	"runtime/debug"
 	"strings"
 	"sync"
+	"sync/atomic"
 	"time"
 	"unsafe"
 )
@@ -243,6 +244,8 @@ func Run(cfg Config, env any, main func()) *Exec {
 	raceSpawn(t0)
 	raceDisable()
 	active = s
+	progressCtr.Add(1)
+	inExec.Store(true)
 	s.startThread(t0, "main", main)
 	t0.st = tsRunning
 	s.cur = t0
@@ -257,6 +260,8 @@ func Run(cfg Config, env any, main func()) *Exec {
 		}
 	}
 	active = nil
+	inExec.Store(false)
+	progressCtr.Add(1)
 	raceEnable()
 	// everything the execution's threads did happens-before whatever the caller (and the next execution) does
 	for _, t := range s.threads {
@@ -265,6 +270,30 @@ func Run(cfg Config, env any, main func()) *Exec {
 	x := &Exec{Outcome: s.outcome, Points: s.points, Steps: s.steps, Virtual: time.Duration(s.now), Crash: s.crash,
 		Blocked: s.blocked, DivergeAt: s.diverge, Threads: len(s.threads), TraceLog: s.trace, Prefix: cfg.Prefix}
 	return x
+}
+
+// progressCtr counts scheduling steps, decisions and execution starts/ends over the whole process; a worker's spin monitor
+// reads it (Progress) to recognise a thread that burns CPU without ever reaching a scheduling point.
+var progressCtr atomic.Uint64
+var inExec atomic.Bool
+
+// Progress reports whether an execution is in progress and the process-wide progress counter.
+func Progress() (bool, uint64) { return inExec.Load(), progressCtr.Load() }
+
+// CurrentChoices returns the decisions taken so far in the execution in progress. It is meant for a monitor that has
+// established that the execution is stuck (the read is unsynchronised).
+//
+//go:norace
+func CurrentChoices() []int {
+	s := active
+	if s == nil {
+		return nil
+	}
+	var out []int
+	for _, p := range s.points {
+		out = append(out, p.Chosen)
+	}
+	return out
 }
 
 //go:norace
@@ -467,6 +496,7 @@ func sigOf(kind byte, ids []int, adv bool) uint32 {
 //go:norace
 func (s *Sched) choose(p Point) int {
 	c := 0
+	progressCtr.Add(1)
 	if s.pos < len(s.cfg.Prefix) {
 		c = s.cfg.Prefix[s.pos]
 		bad := c < 0 || c >= p.N
@@ -564,6 +594,7 @@ func (s *Sched) reschedule(t *Thread) {
 			continue
 		}
 		s.steps++
+		progressCtr.Add(1)
 		if s.steps > s.maxSteps {
 			s.finish(Horizon)
 			s.park(t)
